@@ -1,6 +1,6 @@
 import Clikit.Drv.Util
 import Clikit.Model.History
-/-! Driver entries for C17: `c17.help_protocol`, `c17.styles`. -/
+/-! Driver entries for C17: `c17.help_protocol`, `c17.styles`, `c17.styles_wf`. -/
 namespace Clikit.Drv.C17
 open Lean Clikit.Drv Clikit.History
 
@@ -29,6 +29,12 @@ def handle (m : String) (j : Json) : Option (R Json) :=
       let ops ← (← fArr j "ops").toList.mapM opOf
       let h := runOps Gen.C17.tableStyles initialHeap ops
       return jList (fun (b : Border) => jList (fun (s : String) => Json.str s) b) h
+  | "c17.styles_wf" => some do
+      -- the facts `Props.C17.style_noninterference` takes about the real factories (styles_wf_decides,
+      -- refs_fresh_source): every factory copies; the border-style reference of every created style
+      let ops ← (← fArr j "ops").toList.mapM opOf
+      return Json.mkObj [("copies", .bool (copiesB Gen.C17.tableStyles)),
+                         ("refs", jList jNat (refsOf Gen.C17.tableStyles initialHeap ops))]
   | _ => none
 
 end Clikit.Drv.C17
